@@ -104,6 +104,16 @@ CLAIMED = {
              'in general position and is compared with the orientation-test oracle.',
         note='poly1d zero-trimming of symbolic leading coefficients disabled in the area families (value-preserving). Arcs (chord approximation), is_contained_by, polygons beyond 4 edges and Bezier boundaries for enclosure are outside. Enclosure queries that z3 does not finish in 60 s are reported inconclusive.',
         design='3/C14'),
+    'C07': dict(
+        text='inv_arclength runs on a Line (symbolic end points), on a CubicBezier subclass whose length(t1=t) is an uninterpreted strictly '
+             'increasing function (unrolled through its own maxits parameter, m<=3 quick / 5 thorough) and on Paths of n<=3 stub segments '
+             '(recursive call intercepted for segments, symbolic segment equality): ValueError iff s outside [0,L]; ilength(0)=0, '
+             'ilength(L)=1; Line: s/L; returned t in [0,1] with |ell(t)-s| < s_tol; Path: chosen segment contains s, result = '
+             't2T(k, inv_k(s-lsum)).  Termination in binary64: the loop body is cut out of the current source (ast), executed on IEEE '
+             'binary64 symbolic values from an arbitrary state 0<=lo<hi<=1: no non-returning step leaves (lo,hi) unchanged (QF_FP), '
+             'and the midpoint stays in [lo,hi].',
+        note='Accuracy w.r.t. the true arc length depends on length() (C06 unclaimed part). That <=1100 strict shrinkings exhaust the doubles in [0,1] is an argument, not a query.',
+        design='3/C07'),
 }
 
 NOT_YET = 'check not built yet in this round (see DESIGN.md section 3 for the plan)'
